@@ -14,7 +14,8 @@ from nodelib import Cluster, wait_until
 from nodescen import GROUP, apply_history, fatal_storage_errors, gen_history, read_all, wait_member, wait_serves
 
 
-def scenario_install_crash_images(binary, rng, shim_so, parse_journal, apply_mut, write_image, n_images=4, writes=70, threshold=20):
+def scenario_install_crash_images(binary, rng, shim_so, parse_journal, apply_mut, write_image, n_images=4, writes=70, threshold=20,
+                                  inspect=None):
     obs = {"scenario": "install_crash_images", "errors": [], "images": []}
     with Cluster(binary, nodelib.DEFAULT_WORKROOT, "ici") as c:
         n1 = c.node(1, auto_init=True, snapshot_log_size=threshold)
@@ -67,6 +68,15 @@ def scenario_install_crash_images(binary, rng, shim_so, parse_journal, apply_mut
             shutil.rmtree(n2.data_dir, ignore_errors=True)
             write_image(n2.data_dir, files)
             rec = {"journal_prefix": p, "tail": [[mm[0], name(mm)] + ([mm[2]] if len(mm) > 2 and not isinstance(mm[2], bytes) else []) for mm in j[max(0, p - 6):p]]}
+            if inspect is not None:
+                # what the real recovery code reads from this image (on a copy): last_applied vs what snapshot + log reproduce
+                cp = n2.data_dir + ".inspect"
+                shutil.rmtree(cp, ignore_errors=True)
+                shutil.copytree(n2.data_dir, cp)
+                try:
+                    rec["recovered"] = inspect(cp)
+                finally:
+                    shutil.rmtree(cp, ignore_errors=True)
             try:
                 n2.start()
                 n2.wait_ready(need_leader=False)
